@@ -142,6 +142,8 @@ def k2_queries(num, tier, only=None):
                 # the invariant must be inductive over EVERY method of the container (a method outside the property's own
                 # scope can still break the state the property's clauses rely on); the clauses are asserted on the scope
                 for op in plan.ops_of(cont):
+                    if n >= 3 and op == 'insert' and cont in ('lfuda', 'utmap', 'utset'):
+                        continue  # measured: no verdict within the 1 h per-query limit (stated in bounds.outside)
                     for p in ([num, 0, 99] if num != 0 else [0, 99]):
                         if p == num and op not in ops:
                             continue
@@ -527,7 +529,7 @@ def run_property(num, tier, seed, only=None):
     cfg = TIERS[tier]
     ev.bounds = {'k2_capacities': cfg['k2_ns'], 'k2_capacities_lru_mru_fifo_rr': cfg['k2_ns_light'], 'k2_histories': 'any length (inductive step from any invariant state)',
                  'k1_capacity': cfg['k1_n'], 'k1_history_length': cfg['k1'], 'per_query_timeout_s': cfg['k2_timeout'],
-                 'outside': 'capacities above the listed ones; K1 histories longer than listed; value types other than uint64_t; '
+                 'outside': 'capacities above the listed ones (and insert at capacity 3 for lfuda/ut_map/ut_set, which does not finish within the per-query limit); K1 histories longer than listed; value types other than uint64_t; '
                             'allocation failure; clocks beyond 2^40 ticks or decreasing; lfuda ratios other than 1/2'}
     pid = ev.pid
     known, _fixed = load_known()
